@@ -165,7 +165,7 @@ class Oracle:
         del self.holders[vid]
 
     # ---- after every operation
-    def after_op(self, op, before, after, ngrants):
+    def after_op(self, op, before, after, ngrants, valid=True):
         k = self.kind
         name = op[0]
         if k == 'container':
@@ -207,9 +207,14 @@ class Oracle:
                 self.bad('release of %d: users %s -> %s' % (tgt, before['users'], after['users']))
             if op[1] in self.pg:
                 self.bad('release %d was not granted immediately' % op[1])
-        if name == 'put' or (name == 'proc' and op[2] == 'G'):
+        if not valid:       # the constructor refused the request (ValueError): nothing may change
+            if after != before or ngrants:
+                self.bad('a refused %s request changed the state' % name)
+        # the queue's own trigger ran: a head left grantable by a cancel (SimPy semantics: cancel
+        # does not re-trigger) has been served now
+        if (name == 'put' and valid) or (name == 'proc' and op[2] == 'G'):
             self.taint_p = False
-        if name == 'get' or (name == 'proc' and op[2] == 'P'):
+        if (name == 'get' and valid) or (name == 'proc' and op[2] == 'P'):
             self.taint_g = False
         if after['putq'] or after['getq']:
             self.waited = True
@@ -346,11 +351,11 @@ class Run:
         self.cur = []
         return self.snap()
 
-    def end(self, op, before):
+    def end(self, op, before, valid=True):
         grants, self.cur = self.cur, None
         after = self.snap()
         self.log.append((op, grants, after))
-        self.oracle.after_op(op, before, after, len(grants))
+        self.oracle.after_op(op, before, after, len(grants), valid)
         self.stats[op[0]] = self.stats.get(op[0], 0) + 1
 
     def create(self, idx, st):
@@ -404,7 +409,7 @@ class Run:
             self.rid_of(ev)
             ev.cancel = lambda e=ev: self.h_cancel(e)
         self.reserved = None
-        self.end(op, before)
+        self.end(op, before, valid=ev is not None)
         return ev
 
     def oracle_issue(self, kindop, rid, meta, valid):
